@@ -3,6 +3,7 @@ package props
 import (
 	"fmt"
 	"go/ast"
+	"go/token"
 	"sort"
 	"strings"
 
@@ -13,7 +14,7 @@ import (
 
 func init() {
 	Registry["C15"] = Prop{
-		Patterns: []string{"./ring"},
+		Patterns: []string{"./ring", "./kv/memberlist"},
 		Run:      runC15,
 		Explanation: "Decides structural necessary conditions of 'keys route to the next active partition; partition states follow legal edges': (R1) the transition table literal equals the property's edges and isPartitionStateChangeAllowed is a pure membership test on it; (R2) PartitionDesc.State is written only by UpdatePartitionState (only when the state-change lock is off), AddPartition (creation) and the merge; UpdatePartitionState is called only after the table check on the same values, or with the constant Active under 'pending ∧ enough old owners'; lifecyclers create partitions only as Pending; " +
 			"(R3) a partition is deleted only inside the CAS callback under: deletion enabled ∧ not the own partition ∧ inactive for the whole delay ∧ zero owners — all evaluated on the callback's ring; (R4) replication sets contain exactly the registered healthy owners and are built only when non-empty; (R5) a lifecycler registers/removes only its own owner id; (R6) ActivePartitionForKey returns ringPartitionIDs[i] only under ringPartitionActive[i] for the same i, and the two parallel slices are filled from the same partition id. NOT decided: the successor search over runtime tokens, timing boundaries of promotion/deletion.",
@@ -28,6 +29,8 @@ func runC15(c *core.Ctx) {
 	c.Rule("R3", "partition deletion guard evaluated inside the CAS callback", 2)
 	c.Rule("R4", "replication sets = healthy registered owners, at least one", 2)
 	c.Rule("R5", "own owner id only", 2)
+	c.Rule("R7", "the owner count guarding deletion counts every owner of the partition (no clock, no other field)", 1)
+	c.Rule("R8", "partition state and state-change lock merge as separate last-writer-wins registers (shared with C03.R1)", 2)
 	c.Rule("R6", "active-partition lookup uses the active flag of the same token index", 2)
 	pkg := c.Prog.Pkg("ring")
 	if pkg == nil {
@@ -40,6 +43,61 @@ func runC15(c *core.Ctx) {
 	c15Sets(c, pkg)
 	c15Owners(c, pkg)
 	c15Lookup(c, pkg)
+	c15OwnersCount(c, pkg)
+	// R8: state and lock of a partition are separate last-writer-wins registers also under gossip merges
+	if c.Prog.Pkg("kv/memberlist") == nil {
+		c.Miss("R8", "pkg=kv/memberlist", "not loaded")
+	} else {
+		fns := mergeFns(c, "R8")
+		for _, sp := range lwwSpec {
+			if sp.Type != "PartitionRingDesc" {
+				continue
+			}
+			if fn := fns[sp.Type]; fn != nil {
+				c.Analysed(fn.String())
+				analyseLWWLoop(c, fn, sp, lwwIDs{"R8", "", ""})
+			} else {
+				c.Miss("R8", "type="+sp.Type, "merge function not found")
+			}
+		}
+	}
+}
+
+// c15OwnersCount (R7): the owner count that guards the deletion of a partition counts every owner
+// entry of that partition — it is decided by the owner's partition id alone, reads no clock and no
+// other field of the owner.
+func c15OwnersCount(c *core.Ctx, pkg *packages.Package) {
+	fn := an.FindFunc(pkg, "PartitionRingDesc.PartitionOwnersCount")
+	if fn == nil {
+		c.Miss("R7", "func=PartitionRingDesc.PartitionOwnersCount", "not found")
+		return
+	}
+	c.Analysed(fn.String())
+	g := fn.Graph()
+	loops := rangeLoops(fn, "recv.Owners")
+	var inc *ast.IncDecStmt
+	fn.InspectShallow(func(n ast.Node) bool {
+		if x, ok := n.(*ast.IncDecStmt); ok && x.Tok == token.INC {
+			inc = x
+		}
+		return true
+	})
+	clock := 0
+	for _, call := range fn.Calls(true) {
+		if call.Is("time", "Now") || call.Is("time", "Since") || call.Is("time", "Until") {
+			clock++
+		}
+	}
+	if len(loops) != 1 || inc == nil {
+		c.Undec("R7", "func=PartitionOwnersCount", fn.Pos(), fmt.Sprintf("expected one loop over the owners with a counter increment (loops=%d, clock reads=%d): a count delegated to a time-filtered variant is not the count of all owners", len(loops), clock))
+		return
+	}
+	header, body, _ := g.LoopBlocks(loops[0])
+	t := an.Table{G: g, From: an.Loc{B: body, I: 0}, Opts: an.ExecOpts{Header: header}, FreeUnknown: true, Atoms: []an.Atom{{Name: "same", Values: []string{"T", "F"}}},
+		Binder: &an.Binder{Fn: fn, Eq: map[string]string{"each(recv.Owners).OwnedPartition|p0": "same"}}, Targets: []an.Loc{g.Locate(inc)}, Names: []string{"count++"},
+		Want: func(r an.Row, _ int) an.Tri { return an.FromBool(r["same"] == "T") }}
+	res := t.Run()
+	c.Check(res.OK() && clock == 0 && fn.Canon(inc.X) != "", "R7", "func=PartitionOwnersCount", fn.Pos(), fmt.Sprintf("an owner is counted ⇔ it owns the partition, on nothing else (clock reads: %d): %s", clock, res.Summary()), res.Rows)
 }
 
 func c15Table(c *core.Ctx, pkg *packages.Package) {
